@@ -91,12 +91,15 @@ def run(ctx):
     nexts = [R.call_args(bb)[0] for bb, t in b.calls_to('Iterator::next')]
     seq = nexts[0] if nexts else None
     src_ok = seq is not None and any(is_call(x, 'Bfs::iter') and is_call(x[2][1], 'Tree::get_root_idx') for x in walk(seq))
-    rev = [bb for bb, t in b.calls() if Callee(t['func']).name == 'reverse' and s(R.call_args(bb)[0]) == s(seq)]
+    base = seq
+    while base is not None and is_call(base, 'Iterator::rev'):
+        base = base[2][0]
+    rev = [bb for bb, t in b.calls() if Callee(t['func']).name == 'reverse' and s(R.call_args(bb)[0]) == s(base)]
     hdrs = cfg.loop_headers()
-    # reversed once: either the collected sequence is reversed in place before the sweep, or the sweep iterates it through one `rev()`
+    # reversed exactly once: either the collected sequence is reversed in place before the sweep, or the sweep iterates it through one `rev()`
     n_rev = sum(1 for x in walk(seq) if is_call(x, 'Iterator::rev')) if seq is not None else 0
     via_adaptor = src_ok and not rev and n_rev == 1 and bool(hdrs)
-    if via_adaptor or (src_ok and rev and n_rev == 0 and hdrs and all(cfg.dominates(rev[0], h) for h in hdrs if isinstance(h, int))):
+    if via_adaptor or (src_ok and len(rev) == 1 and n_rev == 0 and hdrs and all(cfg.dominates(rev[0], h) for h in hdrs if isinstance(h, int))):
         ctx.ok('C08.R3', 'AffTree::reduce#order', 'iterates the reversed breadth-first sequence from the root: children before parents', b.span)
     else:
         ctx.bad('C08.R3', 'AffTree::reduce#order', 'reduce does not sweep the reversed breadth-first order from the root (cascading merges / idempotence lost)', b.span)
